@@ -619,15 +619,65 @@ func ruleR14_6(w *World, r *Report) {
 		r.Lost("jsonPrimitive.createJSONTypeFromReflectValue")
 		return
 	}
-	sws := switchesIn(fd.Body)
-	if len(sws) == 0 {
-		r.Undecided("createJSONTypeFromReflectValue", u.Pos(fd.Pos()), "no switch over the reflect kind")
+	type kindArm struct {
+		kinds []string
+		body  []ast.Stmt
+	}
+	var arms []kindArm
+	if sws := switchesIn(fd.Body); len(sws) > 0 {
+		for _, s := range sws[0].Body.List {
+			cc := s.(*ast.CaseClause)
+			a := kindArm{body: cc.Body}
+			for _, e := range cc.List {
+				a.kinds = append(a.kinds, exprString(e))
+			}
+			arms = append(arms, a)
+		}
+	} else {
+		// the same dispatch written as ifs: kind == reflect.X (|| kind == reflect.Y ...)
+		var kindsOf func(e ast.Expr) ([]string, bool)
+		kindsOf = func(e ast.Expr) ([]string, bool) {
+			e = ast.Unparen(e)
+			be, ok := e.(*ast.BinaryExpr)
+			if !ok {
+				return nil, false
+			}
+			switch be.Op {
+			case token.LOR:
+				l, okl := kindsOf(be.X)
+				rr, okr := kindsOf(be.Y)
+				return append(l, rr...), okl && okr
+			case token.EQL:
+				for _, side := range []ast.Expr{be.X, be.Y} {
+					if t := exprString(ast.Unparen(side)); strings.HasPrefix(t, "reflect.") {
+						return []string{t}, true
+					}
+				}
+			}
+			return nil, false
+		}
+		var walkIf func(st *ast.IfStmt)
+		walkIf = func(st *ast.IfStmt) {
+			if ks, ok := kindsOf(st.Cond); ok {
+				arms = append(arms, kindArm{ks, st.Body.List})
+			}
+			if e, ok := st.Else.(*ast.IfStmt); ok {
+				walkIf(e)
+			}
+		}
+		for _, st := range fd.Body.List {
+			if is, ok := st.(*ast.IfStmt); ok {
+				walkIf(is)
+			}
+		}
+	}
+	if len(arms) == 0 {
+		r.Undecided("createJSONTypeFromReflectValue", u.Pos(fd.Pos()), "no dispatch over the reflect kind (switch or if-chain)")
 		return
 	}
 	kindTo := map[string]string{}
-	for _, s := range sws[0].Body.List {
-		cc := s.(*ast.CaseClause)
-		ai := classifyArm(p.TypesInfo, cc.Body)
+	for _, a := range arms {
+		ai := classifyArm(p.TypesInfo, a.body)
 		target := ai.Kind
 		for _, c := range ai.Callees {
 			switch c.Name() {
@@ -635,8 +685,8 @@ func ruleR14_6(w *World, r *Report) {
 				target = c.Name()
 			}
 		}
-		for _, e := range cc.List {
-			kindTo[exprString(e)] = target
+		for _, k := range a.kinds {
+			kindTo[k] = target
 		}
 	}
 	want := map[string]string{"reflect.Slice": "createJSONArray", "reflect.Array": "createJSONArray", "reflect.Map": "createJSONObject", "reflect.Struct": "createJSONObject",
